@@ -1,3 +1,4 @@
+import Fpdec.Kernels.Pow
 import Fpdec.Lemmas.Dom
 import Fpdec.Props.C01_Sites
 
@@ -183,5 +184,18 @@ example : Dom Dec.MAX ∧ Dom Dec.ONE ∧ addSub false Dec.MAX Dec.ONE = .panic 
     checkedAddSub false Dec.MAX Dec.ONE = none := by decide
 example : addSub true ⟨I128_MAX, 0⟩ ⟨1, 18⟩ = .panic .overflow := by decide
 example : addSubInt true true ⟨I128_MAX, 0⟩ (-1) = .ok ⟨I128_MIN, 0⟩ := by decide
+
+/-! ### translated kernels
+The Lean definitions `Gen.K.*` are regenerated from the Rust source on every run by `tools/fpkernels.py` (expression-level
+translation).  These theorems tie them to the hand-written model the property theorems above are about: a change of the Rust
+kernel that changes its translation breaks them. -/
+theorem kernel_ten_pow (prof : Profile) (n : Nat) : Gen.K.ten_pow prof n = tenPow n := Kernels.ten_pow_eq prof n
+theorem kernel_mul_pow_ten (prof : Profile) (val : Int) (n : Nat) : Gen.K.mul_pow_ten prof val n = mulPowTen val n :=
+  Kernels.mul_pow_ten_eq prof val n
+theorem kernel_checked_mul_pow_ten (prof : Profile) (val : Int) (n : Nat) :
+    Gen.K.checked_mul_pow_ten prof val n = .ok (checkedMulPowTen val n) := Kernels.checked_mul_pow_ten_eq prof val n
+theorem kernel_checked_adjust_coeffs (prof : Profile) (x : Int) (p : Nat) (y : Int) (q : Nat) (hp : p < 256) (hq : q < 256) :
+    Gen.K.checked_adjust_coeffs prof x p y q = .ok (checkedAdjustCoeffs x p y q) :=
+  Kernels.checked_adjust_coeffs_eq prof x p y q hp hq
 
 end Fpdec.Props.C01
